@@ -59,6 +59,8 @@ def main():
     ap.add_argument("--skip-checks", action="store_true")
     ap.add_argument("--tier", default="quick")
     ap.add_argument("--seed", default="0")
+    ap.add_argument("--touched-only", action="store_true", help="unit tests of the packages the change touches only (engine / tuners / distribute), not all three")
+    ap.add_argument("--tests-only", action="store_true", help="only the unit tests, in a worktree of its own; result in unit_tests.json (merged by the next pass / seed_merge)")
     ap.add_argument("--base", default="HEAD", help="commit of /repo the change was written against (default: HEAD); used when a later "
                                                     "fix: commit removed the very window the change needs")
     a = ap.parse_args()
@@ -82,13 +84,20 @@ def main():
         except Exception:
             pass
     result.setdefault("checks", {})
+    utp = os.path.join(dst, "unit_tests.json")
+    if os.path.exists(utp) and not a.tests_only:
+        ut = json.load(open(utp))
+        result["unit_tests"], result["unit_tests_cmd"] = ut["unit_tests"], ut["unit_tests_cmd"]
+    if a.tests_only:
+        a.skip_demo = a.skip_checks = True
+        a.skip_tests = False
     os.makedirs("/tmp/vwt", exist_ok=True)
     head = sh(f"git -C /repo rev-parse --short {a.base}")[1].strip()
     result["base"] = head
     cleanwt = f"/tmp/vwt/clean_{head}"
     if not os.path.exists(os.path.join(cleanwt, "keras_tuner")):
         worktree(cleanwt, head)
-    wt = f"/tmp/vwt/{name}"
+    wt = f"/tmp/vwt/{name}" + ("_t" if a.tests_only else "")
     worktree(wt, head)
     try:
         rc, out = sh(f"git apply {os.path.join(dst, 'patch.diff')}", cwd=wt)
@@ -109,11 +118,12 @@ def main():
             open(os.path.join(dst, "demo_output.txt"), "w").write("== clean ==\n" + clean(out0)[-1500:] + "\n== patched ==\n" + clean(out1)[-2500:] + "\n")
             print(f"demo: clean exit {rc0}, patched exit {rc1}")
         if not a.skip_tests:
-            dirs = {"keras_tuner/engine", "keras_tuner/tuners", "keras_tuner/distribute"}
+            dirs = set() if a.touched_only else {"keras_tuner/engine", "keras_tuner/tuners", "keras_tuner/distribute"}
             for f in files:
                 d = os.path.dirname(f)
                 if d.startswith("keras_tuner") and "applications" not in d:
-                    dirs.add(d)
+                    # the package (engine / tuners / distribute), not only the sub-package of the file
+                    dirs.add("/".join(d.split("/")[:2]) if a.touched_only and d.count("/") >= 1 else d)
             # nested dirs are covered by their parents
             dirs = sorted(d for d in dirs if not any(d != e and d.startswith(e + "/") for e in dirs))
             cmd = f"{PY} -m pytest -q -p no:cacheprovider -x --timeout=3000 " + " ".join(dirs)
@@ -123,6 +133,8 @@ def main():
             result["unit_tests_cmd"] = cmd
             result["unit_tests"] = {"exit": rc, "summary": tail[0] if tail else clean(out)[-300:], "wall_s": round(time.time() - t0)}
             print("unit tests:", result["unit_tests"])
+            if a.tests_only:
+                json.dump({"unit_tests": result["unit_tests"], "unit_tests_cmd": cmd, "base": head}, open(utp, "w"), indent=1)
         result["confirmed"] = bool(result.get("demo_clean_exit") == 0 and result.get("demo_patched_exit") not in (0, None)
                                    and result.get("unit_tests", {}).get("exit") == 0)
         for pid in ([] if a.skip_checks else [a.pid] + [c for c in a.checks.split(",") if c and c != a.pid]):
@@ -144,7 +156,8 @@ def main():
             print(f"check {pid}: exit {rc} {vio[0] if vio else ''}\n   {first[:200]}")
         result["caught_by"] = sorted(p for p, r in result["checks"].items() if r["exit"] == 1)
     finally:
-        json.dump(result, open(rp, "w"), indent=1)
+        if not a.tests_only:
+            json.dump(result, open(rp, "w"), indent=1)
         sh(f"git -C /repo worktree remove --force {wt}")
         shutil.rmtree(wt, ignore_errors=True)
     return 0
